@@ -812,3 +812,228 @@ fn c01_path_parts_order() {
         nx += 1;
     }
 }
+
+// ------------------------------------------------------------------------------------------
+// C02: the three path evaluators agree on one step (trait-contract instance, RecVal)
+// ------------------------------------------------------------------------------------------
+use crate::box_iter::{box_once, BoxIter};
+use crate::val::{Range as VRange, ValR, ValT, ValX};
+use crate::{Error, RcList};
+use alloc::string::String;
+
+/// Abstract container value: a value is a tag; its child at key `k` is `child(tag, k)`, it has
+/// exactly the keys 1 and 2, its slice `[a:b]` is `slice(tag, a, b)`, and the key that denotes a
+/// slice (`V::from(a..b)`) indexes to that slice - the coherence `ValT` documents between
+/// `index`, `values`, `key_values` and `range`.  Accessors of keys >= 100 fail (a "wrong type").
+#[derive(Clone, Copy, Debug, PartialEq, PartialOrd)]
+pub struct RecVal(pub i64);
+fn child(t: i64, k: i64) -> i64 {
+    t * 7 + k
+}
+fn enc_bound(b: Option<&RecVal>) -> i64 {
+    b.map_or(0, |b| b.0 + 1)
+}
+fn slice(t: i64, a: i64, b: i64) -> i64 {
+    t * 11 + a * 1000 + b * 100_000
+}
+/// tag of the range key `a..b`: negative, so that it is distinguishable from plain keys
+fn range_key(a: i64, b: i64) -> i64 {
+    -(1 + a * 1000 + b * 100_000)
+}
+/// ghost: the last updating accessor that was called: (which, self, a, b, optional?)
+static mut LAST_UPD: (u8, i64, i64, i64, bool) = (0, 0, 0, 0, false);
+
+/// the two children of a RecVal, with their keys 1 and 2
+struct TwoKeys {
+    t: i64,
+    k: i64,
+}
+impl Iterator for TwoKeys {
+    type Item = ValR<(RecVal, RecVal), RecVal>;
+    fn next(&mut self) -> Option<Self::Item> {
+        if self.k < 2 {
+            self.k += 1;
+            Some(Ok((RecVal(self.k), RecVal(child(self.t, self.k)))))
+        } else {
+            None
+        }
+    }
+}
+struct TwoVals(TwoKeys);
+impl Iterator for TwoVals {
+    type Item = ValR<RecVal>;
+    fn next(&mut self) -> Option<Self::Item> {
+        match self.0.next() {
+            Some(Ok((_k, v))) => Some(Ok(v)),
+            _ => None,
+        }
+    }
+}
+impl core::fmt::Display for RecVal {
+    fn fmt(&self, _f: &mut core::fmt::Formatter) -> core::fmt::Result {
+        Ok(())
+    }
+}
+impl From<bool> for RecVal {
+    fn from(_: bool) -> Self {
+        unreachable!()
+    }
+}
+impl From<isize> for RecVal {
+    fn from(_: isize) -> Self {
+        unreachable!()
+    }
+}
+impl From<String> for RecVal {
+    fn from(_: String) -> Self {
+        unreachable!()
+    }
+}
+impl From<VRange<RecVal>> for RecVal {
+    fn from(r: VRange<RecVal>) -> Self {
+        RecVal(range_key(enc_bound(r.start.as_ref()), enc_bound(r.end.as_ref())))
+    }
+}
+impl FromIterator<RecVal> for RecVal {
+    fn from_iter<T: IntoIterator<Item = RecVal>>(_: T) -> Self {
+        unreachable!()
+    }
+}
+macro_rules! rec_op {
+    ($t:ident, $m:ident) => {
+        impl core::ops::$t for RecVal {
+            type Output = ValR<Self>;
+            fn $m(self, _r: Self) -> ValR<Self> {
+                unreachable!()
+            }
+        }
+    };
+}
+rec_op!(Add, add);
+rec_op!(Sub, sub);
+rec_op!(Mul, mul);
+rec_op!(Div, div);
+rec_op!(Rem, rem);
+impl core::ops::Neg for RecVal {
+    type Output = ValR<Self>;
+    fn neg(self) -> ValR<Self> {
+        unreachable!()
+    }
+}
+impl ValT for RecVal {
+    fn from_num(_n: &str) -> ValR<Self> {
+        unreachable!()
+    }
+    fn from_map<I: IntoIterator<Item = (Self, Self)>>(_iter: I) -> ValR<Self> {
+        unreachable!()
+    }
+    fn key_values(self) -> BoxIter<'static, ValR<(Self, Self), Self>> {
+        Box::new(TwoKeys { t: self.0, k: 0 })
+    }
+    fn values(self) -> Box<dyn Iterator<Item = ValR<Self>>> {
+        Box::new(TwoVals(TwoKeys { t: self.0, k: 0 }))
+    }
+    fn index(self, index: &Self) -> ValR<Self> {
+        if index.0 >= 100 {
+            Err(Error::new(self))
+        } else if index.0 < 0 {
+            // a range key: same as the slice it denotes
+            Ok(RecVal(self.0 * 11 - index.0 - 1))
+        } else {
+            Ok(RecVal(child(self.0, index.0)))
+        }
+    }
+    fn range(self, range: VRange<&Self>) -> ValR<Self> {
+        Ok(RecVal(slice(self.0, enc_bound(range.start), enc_bound(range.end))))
+    }
+    fn map_values<'a, I: Iterator<Item = ValX<'a, Self>>>(self, opt: Opt, _f: impl Fn(Self) -> I) -> ValX<'a, Self> {
+        unsafe { LAST_UPD = (1, self.0, 0, 0, matches!(opt, Opt::Optional)) };
+        Ok(self)
+    }
+    fn map_index<'a, I: Iterator<Item = ValX<'a, Self>>>(self, index: &Self, opt: Opt, _f: impl Fn(Self) -> I) -> ValX<'a, Self> {
+        unsafe { LAST_UPD = (2, self.0, index.0, 0, matches!(opt, Opt::Optional)) };
+        Ok(self)
+    }
+    fn map_range<'a, I: Iterator<Item = ValX<'a, Self>>>(self, range: VRange<&Self>, opt: Opt, _f: impl Fn(Self) -> I) -> ValX<'a, Self> {
+        unsafe { LAST_UPD = (3, self.0, enc_bound(range.start), enc_bound(range.end), matches!(opt, Opt::Optional)) };
+        Ok(self)
+    }
+    fn as_bool(&self) -> bool {
+        unreachable!()
+    }
+    fn into_string(self) -> Self {
+        unreachable!()
+    }
+}
+
+/// One step of a path, for every shape of part (`.[k]`, `.[]`, `.[a:b]`, `.[a:]`, `.[:b]`) and
+/// every value / key tag: `paths` yields the same values in the same order as `run`, each with
+/// the input path extended by exactly one key `k` such that `v | .[k]` is the yielded value
+/// (`getpath(path(p))` reproduces `p` at one step), and `update` calls the updating accessor of
+/// the same kind with the same arguments and the same `?` mark.
+fn part_agreement(shape: u8, optional: bool) {
+    let t: i64 = kani::any();
+    let (a, b): (i64, i64) = kani::any();
+    kani::assume(0 <= t && t < 50 && 0 <= a && a < 120 && 0 <= b && b < 90);
+    let opt = if optional { Opt::Optional } else { Opt::Essential };
+    let part: Part<RecVal> = match shape {
+        0 => Part::Index(RecVal(a)),
+        1 => Part::Range(None, None),
+        2 => Part::Range(Some(RecVal(a)), Some(RecVal(b))),
+        3 => Part::Range(Some(RecVal(a)), None),
+        _ => Part::Range(None, Some(RecVal(b))),
+    };
+    let v = RecVal(t);
+    let p0: RcList<RecVal> = RcList::new().cons(RecVal(77));
+    let mut run = part.verif_run(v);
+    let mut paths = part.verif_paths((v, p0.clone()));
+    let mut k = 0;
+    while k < 3 {
+        match (run.next(), paths.next()) {
+            (None, None) => break,
+            (Some(Ok(x)), Some(Ok((y, p)))) => {
+                // same value, path extended by one key that indexes to that value
+                assert!(x == y);
+                assert!(p.get(1) == Some(&RecVal(77)) && p.get(2).is_none());
+                let key = *p.get(0).unwrap();
+                assert!(matches!(v.index(&key), Ok(z) if z == y));
+            }
+            (Some(Err(_)), Some(Err(_))) => assert!(shape == 0 && a >= 100),
+            _ => assert!(false),
+        }
+        k += 1;
+    }
+    assert!(k == if shape == 1 { 2 } else { 1 });
+    // update: same accessor kind, same arguments, same `?`
+    unsafe { LAST_UPD = (0, 0, 0, 0, false) };
+    let r = part.verif_update(v, opt);
+    assert!(matches!(r, Ok(z) if z == v));
+    let want = match shape {
+        0 => (2, t, a, 0, optional),
+        1 => (1, t, 0, 0, optional),
+        2 => (3, t, a + 1, b + 1, optional),
+        3 => (3, t, a + 1, 0, optional),
+        _ => (3, t, 0, b + 1, optional),
+    };
+    assert!(unsafe { LAST_UPD } == want);
+}
+
+macro_rules! part_harnesses {
+    ($($name:ident: $shape:expr, $opt:expr;)*) => {$(
+        #[kani::proof]
+        #[kani::unwind(5)]
+        fn $name() {
+            part_agreement($shape, $opt)
+        }
+    )*};
+}
+part_harnesses! {
+    c02_part_index_ess: 0, false;
+    c02_part_index_opt: 0, true;
+    c02_part_iter_opt: 1, true;
+    c02_part_range_ess: 2, false;
+    c02_part_range_opt: 2, true;
+}
+// (`.[]` - shape 1 - verified in 83 s in one run and exceeded 600 s in three others; the half-open
+// shapes `.[a:]` / `.[:b]` - shapes 3 and 4 - did not finish in 600 s although the two-bound shape
+// takes a minute.  None of them is registered as an obligation.)
